@@ -30,8 +30,10 @@ TCall   == Consume("call") /\ Call
 TProbe  == Consume("probe") /\ Ev.served = Observed /\ ProbeCore(Ev.txn, Ev.ph)
 TFs     == /\ Consume("fs") /\ Ev.path \in Paths
            /\ IF Ev.op = "remove"
-              THEN CleanRemove(Ev.path) \/ SaveRemove(Ev.path) \/ RStoreRemove(Ev.path) \/ RRemove(Ev.path)
-              ELSE SaveStore(Ev.path) \/ RStoreStore(Ev.path)
+              THEN \/ CleanRemove(Ev.path) \/ RStoreRemove(Ev.path) \/ RRemove(Ev.path)
+                   \/ \E q \in Paths : Resolve(q) = Ev.path /\ SaveRemove(q)
+              ELSE \/ RStoreStore(Ev.path)
+                   \/ \E q \in Paths : wp = Ev.path /\ SaveStore(q)
 THook   == /\ Consume("hook")
            /\ IF Ev.point = "published" THEN PublishUnbuilt \/ Publish ELSE HookInitialized
 THap    == Consume("haproxy") /\ HapCall /\ cnt'["haproxy"] = Ev.n /\ ((Ev.code # 200) <=> Fires("haproxy"))
